@@ -28,6 +28,10 @@ def run(tier: str) -> int:
         PC.record_model(rep, wd, 7 if quick else 9,
                         invs=["CommittedSubsetValid", "NeverCleanUnwritten", "RecordsValid"], label="crash_model")
         jobs = PC.probe_jobs("crash", 2 if quick else 12, seed, rounds=2 if quick else 3, nops=3, all_prefixes=True)
+        if quick:   # every prefix length for one history per class, a sample for the others
+            for k, j in enumerate(jobs):
+                j["all_prefixes"] = (k % 2 == 0)
+                j["rounds"] = 2 if k % 2 == 0 else 1
         jobs += PC.probe_jobs("kill", 1 if quick else 4, seed + 1, start=5000, kills=10 if quick else 75, max_delay=0.3)
         good, verd = PC.run_validate(rep, wd, jobs, "crash_probes", "harness.probeworker", only=CLAUSES, stall=120,
                                      describe=lambda e: f"{e.get('what','')}: sub_ok={e.get('sub_ok')} full_ok={e.get('full_ok')} "
